@@ -388,6 +388,8 @@ impl Region {
 
         let meta = self.meta();
         let meta_flushed = meta.flush(self.index(), &regions)?;
+        // Release the metadata lock before taking the file lock (lock order: file -> meta).
+        drop(meta);
 
         // Data MUST be durable before metadata — if we crash after metadata sync
         // but before data sync, metadata could reference unwritten data.
